@@ -58,7 +58,7 @@ def showRB (rb : RB) : String :=
   else if rb.fuelOut then "OUT-OF-FUEL"
   else
     let rows := (List.range rb.lines.toNat).map fun (l : Nat) =>
-      " ".intercalate ((List.range rb.cols.toNat).map fun (c : Nat) => showCell (rb.cells (l : Int) (c : Int)))
+      " ".intercalate ((List.range rb.cols.toNat).map fun (c : Nat) => showCell (rb.cell (l : Int) (c : Int)))
     s!"sz={rb.lines},{rb.cols} vc={if rb.vcSet then 1 else 0},{rb.vcLine},{rb.vcCol} xl={rb.xlLine},{rb.xlCol} " ++
     s!"clip={rb.clip.top},{rb.clip.left},{rb.clip.lines},{rb.clip.cols} pen=" ++ showPen rb.pen ++
     s!" depth={rb.depth} stack=[" ++ ";".intercalate (rb.stack.map showFrame) ++ "] cells=" ++ "/".intercalate rows
